@@ -83,9 +83,9 @@ Print Assumptions C25_nest_min_trials.
 (** Groups (partial).  Full statement, not proved:
       a sequence is valid for Nest(outer, inner) iff it splits into [outer trials]
       consecutive groups of [inner trials] trials such that the outer block's crossed
-      factors are constant within each group, the sequence of group representatives is
-      valid for the outer block, and each group restricted to the inner design is valid
-      for the inner block.
+      factors are constant within each group, the sequence of group representatives
+      satisfies the outer block's crossing, and each group restricted to the inner design
+      is valid for the inner block (crossing and constraints); and nesting is associative.
     Proved: (1) [C25_nest_args]: every factor of an outer crossing gets the sustain count
     [inner length x its outer sustain count] and is in no inner crossing, the inner
     crossings keep theirs; (2) below: in the reference semantics (Design/Sem.v) a
@@ -94,8 +94,8 @@ Print Assumptions C25_nest_min_trials.
     Gap: that the outer crossing / constraints read on group representatives and the
     inner crossing / constraints read inside each group are what the REPEAT-mode crossing
     chunks and the rescaled constraint windows of the combined block denote (needs the
-    denotation of the compiled Cross / Sustain constraints of fragment F3); the harness
-    decides exactly this on exhausted solution sets. *)
+    denotation of the compiled Cross / Sustain constraints of fragment F3), and
+    associativity; the harness decides exactly these on exhausted solution sets. *)
 Theorem C25_nest_groups_partial :
   forall (S : sem) (s : tseq) (f : nat) (fd : dfactor) (t t' : nat),
     factor_ok S s f fd = true -> f_derived fd = None -> t < s_trials S -> t' < s_trials S ->
